@@ -1,7 +1,197 @@
-/- C15 — statements under construction -/
-import AgpTpf.Model.Cache
-import AgpTpf.Model.Outputs
-import AgpTpf.Model.Remap
+/-
+  C15 — A stale, partial or concurrently rewritten index cache is never silently used.
+
+  Model: `Cache.State` / `applyOp` — the file system (FASTA content + mtime, `.fai`, `.agp`), a clock and any number of
+  processes each inside one `FastaIndex.auto_load()` call, at file-operation granularity (`stepProc`, one step per
+  stat / exists / read / open / flushed write / close / os.replace).  Environment operations: time passes, the FASTA is
+  rewritten (only while no process is inside `auto_load`), either cache file is deleted, a process is spawned, a process
+  is stepped, a process crashes (everything it has written so far persists).
+  `State.atomic = true`: every cache file is written to a temporary file and moved into place with `os.replace`;
+  `State.atomic = false`: the cache files are opened for writing in place (`path.open("w")`).
+
+  `safe s`: every finished `auto_load` either failed loudly or returned exactly the index and assembly of the FASTA
+  content that was current when it returned (loaded files complete and rendering that content, or built from it).
+-/
+import AgpTpf.Proofs.C15
+import AgpTpf.Proofs.C15Solo
+import AgpTpf.Gen.Fasta
 namespace AgpTpf.C15
-theorem placeholder : True := trivial
+open AgpTpf.Cache
+
+/-! ### Tie to the source (regenerated on every run by harness/extract_constants.py)
+The safety theorem below is about the ATOMIC protocol; these two guards fail to build when the source stops writing the
+cache through a temporary file + `os.replace`, or changes the strict `>` of the freshness test. -/
+
+/-- `FastaIndex.write_index` / `write_assembly` do not open the final cache names for writing and the class calls `os.replace`. -/
+theorem source_protocol_is_atomic : Gen.cacheWritesAtomic = true := rfl
+/-- the freshness test in `check_for_index_files` is the strict comparison the model's `newer` implements. -/
+theorem source_mtime_test_is_strict : Gen.cacheMtimeTest = "idx_file.stat().st_mtime > fasta_mtime" := rfl
+
+/-! ### Safety of the atomic protocol: every reachable state, any number of processes, steps, crashes, races -/
+
+/-- MAIN THEOREM.  For every number of flush boundaries in the two cache files and EVERY sequence of operations
+    (ticks, FASTA rewrites, cache-file deletions, spawns, steps of any process in any interleaving, crashes at any
+    point), no finished `auto_load` has silently used a stale, partial or foreign cache. -/
+theorem cache_safety (ft at_ : Nat) (ops : List Op) : safe (run (init true ft at_) ops) = true :=
+  inv_safe _ (inv_run _ (inv_init ft at_) ops)
+
+/-- `safe` spelled out for one process: what a finished load returned. -/
+theorem cache_safety_loaded (ft at_ : Nat) (ops : List Op) (p : Nat) (a b : FileV) (c : Nat)
+    (h : (run (init true ft at_) ops).procs[p]? = some (.done (.loaded a b) c)) :
+    a.written = a.total ∧ b.written = b.total ∧ a.src = c ∧ b.src = c := by
+  have hs := cache_safety ft at_ ops
+  have := List.all_eq_true.1 hs _ (List.mem_of_getElem? h)
+  simpa [goodResult, FileV.complete, and_assoc] using this
+
+theorem cache_safety_indexed (ft at_ : Nat) (ops : List Op) (p : Nat) (c' c : Nat)
+    (h : (run (init true ft at_) ops).procs[p]? = some (.done (.indexed c') c)) : c' = c := by
+  have hs := cache_safety ft at_ ops
+  have := List.all_eq_true.1 hs _ (List.mem_of_getElem? h)
+  simpa [goodResult] using this
+
+/-- A reader never observes a half-written cache file: in every reachable state of the atomic protocol each cache
+    file that exists is complete and its mtime is not in the future. -/
+theorem cache_files_complete (ft at_ : Nat) (ops : List Op) (v : FileV)
+    (h : (run (init true ft at_) ops).fai = some v ∨ (run (init true ft at_) ops).agp = some v) :
+    v.complete = true ∧ v.mtime ≤ (run (init true ft at_) ops).clock := by
+  have hI := inv_run _ (inv_init ft at_) ops
+  rcases h with h | h
+  · have := hI.fai v h; simp [FileV.complete, this.1, this.2.2]
+  · have := hI.agp v h; simp [FileV.complete, this.1, this.2.2]
+
+/-- The freshness test is sound: in every reachable state a cache file that is strictly newer than the FASTA renders
+    the FASTA's current content. -/
+theorem newer_cache_is_current (ft at_ : Nat) (ops : List Op) (v : FileV)
+    (h : (run (init true ft at_) ops).fai = some v ∨ (run (init true ft at_) ops).agp = some v)
+    (hn : v.mtime > (run (init true ft at_) ops).fastaMtime) :
+    v.src = (run (init true ft at_) ops).fastaContent := by
+  have hI := inv_run _ (inv_init ft at_) ops
+  rcases h with h | h
+  · have := hI.fai v h; omega
+  · have := hI.agp v h; omega
+
+/-! ### The in-place protocol is NOT safe (why the fix was needed) -/
+
+/-- `n` consecutive file operations of process `p` -/
+def steps (p n : Nat) : List Op := List.replicate n (.step p)
+
+/-- crash trace: process 0 indexes, is killed after the first flushed chunk of the `.agp` (9 file operations);
+    process 1 then finds both cache files newer than the FASTA and loads the truncated `.agp`. -/
+def crashTrace : List Op := [.spawn] ++ steps 0 9 ++ [.crash 0, .tick, .spawn] ++ steps 1 5
+
+/-- race trace, no crash at all: process 1 runs its whole `auto_load` while process 0 is in the middle of writing. -/
+def raceTrace : List Op := [.spawn, .spawn] ++ steps 0 9 ++ steps 1 5 ++ steps 0 3
+
+theorem cache_unsafe_inplace : ∃ ops, safe (run (init false 2 2) ops) = false := ⟨crashTrace, by decide⟩
+
+theorem cache_unsafe_inplace_race : safe (run (init false 2 2) raceTrace) = false := by decide
+
+/-- what the reader got in the crash trace: a complete `.fai` and an `.agp` with 1 of 2 chunks, accepted as valid -/
+example : (run (init false 2 2) crashTrace).procs[1]? =
+    some (.done (.loaded ⟨0, 2, 2, 1⟩ ⟨0, 1, 2, 1⟩) 0) := by decide
+/-- the same two traces under the atomic protocol (it needs 2 more file operations, the two `os.replace`) -/
+example : (run (init true 2 2) crashTrace).procs[1]? = some (.writingFai 0 0 2) ∧
+    (run (init true 2 2) crashTrace).agp = none := by decide  -- no `.agp` yet → the reader re-indexes
+example : safe (run (init true 2 2) raceTrace) = true := by decide
+
+/-! ### Missing or not strictly newer cache files are rebuilt, both together -/
+
+/-- "not strictly newer" = missing, or mtime ≤ the FASTA's -/
+theorem not_newer_iff (f : Option FileV) (m : Nat) :
+    newer f m = false ↔ f = none ∨ ∃ v, f = some v ∧ v.mtime ≤ m := by
+  cases f with
+  | none => simp [newer]
+  | some v => simp [newer]
+
+/-- The decision, direct from `stepProc`: a missing / not strictly newer `.fai` sends the process to (re)indexing
+    without looking at the `.agp`; so does a missing / not strictly newer `.agp`; only two strictly newer files lead to
+    loading.  None of the checks changes the file system. -/
+theorem stale_or_missing_decides (s : State) (m : Nat) :
+    (newer s.fai m = false → stepProc s (.statted m) = (s, .index0)) ∧
+    (newer s.fai m = true → stepProc s (.statted m) = (s, .faiOk m)) ∧
+    (newer s.agp m = false → stepProc s (.faiOk m) = (s, .index0)) ∧
+    (newer s.agp m = true → stepProc s (.faiOk m) = (s, .bothOk)) := by
+  refine ⟨?_, ?_, ?_, ?_⟩ <;> intro h <;> simp [stepProc, h]
+
+/-- Both rebuilt together (either protocol): a process that starts `auto_load` while the `.fai` or the `.agp` is
+    missing or not strictly newer than the FASTA, and then runs undisturbed (at least `faiTotal + agpTotal + 10` of its
+    file operations, the atomic protocol needs exactly that many), returns the index built from the current content
+    and leaves BOTH cache files complete, rendering the current content and stamped with the current time — whatever
+    the two files were before (one of them may have been perfectly fresh). -/
+theorem stale_or_missing_rebuilds (s : State) (p n : Nat)
+    (hp : s.procs[p]? = some .start)
+    (hstale : newer s.fai s.fastaMtime = false ∨ newer s.agp s.fastaMtime = false)
+    (hn : s.faiTotal + s.agpTotal + 10 ≤ n) :
+    let s' := run s (steps p n)
+    s'.procs[p]? = some (.done (.indexed s.fastaContent) s.fastaContent) ∧
+    s'.fai = some { src := s.fastaContent, written := s.faiTotal, total := s.faiTotal, mtime := s.clock } ∧
+    s'.agp = some { src := s.fastaContent, written := s.agpTotal, total := s.agpTotal, mtime := s.clock } ∧
+    s'.fastaContent = s.fastaContent ∧ s'.fastaMtime = s.fastaMtime ∧ s'.clock = s.clock := by
+  have h0 : SoloAt s p (s.faiTotal + s.agpTotal + 10) s := by
+    refine ⟨rfl, rfl, rfl, rfl, rfl, rfl, .start, hp, ?_, Nat.le_refl _⟩
+    simp only [soloQ]
+    rcases hstale with h | h <;> simp [h]
+  have h1 := solo_run s p _ s h0 n
+  rw [Nat.sub_eq_zero_of_le hn] at h1
+  exact solo_done s p _ h1
+
+/-- the same from the decision point `index0` (what the task statement names) -/
+theorem index0_rebuilds (s : State) (p n : Nat) (hp : s.procs[p]? = some .index0)
+    (hn : s.faiTotal + s.agpTotal + 7 ≤ n) :
+    let s' := run s (steps p n)
+    s'.procs[p]? = some (.done (.indexed s.fastaContent) s.fastaContent) ∧
+    s'.fai = some { src := s.fastaContent, written := s.faiTotal, total := s.faiTotal, mtime := s.clock } ∧
+    s'.agp = some { src := s.fastaContent, written := s.agpTotal, total := s.agpTotal, mtime := s.clock } := by
+  have h0 : SoloAt s p (s.faiTotal + s.agpTotal + 7) s :=
+    ⟨rfl, rfl, rfl, rfl, rfl, rfl, .index0, hp, trivial, Nat.le_refl _⟩
+  have h1 := solo_run s p _ s h0 n
+  rw [Nat.sub_eq_zero_of_le hn] at h1
+  have := solo_done s p _ h1
+  exact ⟨this.1, this.2.1, this.2.2.1⟩
+
+/-! ### Non-vacuity: concrete runs (atomic protocol, 2 flush boundaries per file) -/
+
+/-- cold: no cache → indexes, writes both files -/
+def cold : List Op := [.spawn] ++ steps 0 14
+example : (run (init true 2 2) cold).procs = [.done (.indexed 0) 0] ∧
+    (run (init true 2 2) cold).fai = some ⟨0, 2, 2, 1⟩ ∧ (run (init true 2 2) cold).agp = some ⟨0, 2, 2, 1⟩ := by
+  decide
+/-- hypotheses of `stale_or_missing_rebuilds` are satisfiable (this is the cold run) -/
+example : let s := run (init true 2 2) [.spawn]
+    s.procs[0]? = some .start ∧ (newer s.fai s.fastaMtime = false ∨ newer s.agp s.fastaMtime = false) ∧
+    s.faiTotal + s.agpTotal + 10 ≤ 14 := by decide
+
+/-- warm: a second process loads the cache written by the first -/
+def warm : List Op := cold ++ [.spawn] ++ steps 1 5
+example : (run (init true 2 2) warm).procs[1]? = some (.done (.loaded ⟨0, 2, 2, 1⟩ ⟨0, 2, 2, 1⟩) 0) := by decide
+
+/-- stale: the FASTA is rewritten (new content 1, mtime 2) → the next load re-indexes and rewrites both files -/
+def stale : List Op := cold ++ [.tick, .rewriteFasta, .tick, .spawn] ++ steps 1 14
+example : (run (init true 2 2) stale).procs[1]? = some (.done (.indexed 1) 1) ∧
+    (run (init true 2 2) stale).fai = some ⟨1, 2, 2, 3⟩ ∧ (run (init true 2 2) stale).agp = some ⟨1, 2, 2, 3⟩ := by
+  decide
+/-- same-mtime rewrite (no tick between writing the cache and rewriting the FASTA): "not strictly newer" → rebuilt -/
+example : (run (init true 2 2) (cold ++ [.rewriteFasta, .spawn] ++ steps 1 14)).procs[1]? =
+    some (.done (.indexed 1) 1) := by decide
+/-- rewriteFasta is disabled while a process is inside `auto_load` -/
+example : (run (init true 2 2) ([.spawn] ++ steps 0 5 ++ [.rewriteFasta])).fastaContent = 0 := by decide
+
+/-- only the `.agp` deleted: both files are rebuilt (the `.fai` gets the new time 2 as well) -/
+example : (run (init true 2 2) (cold ++ [.deleteAgp, .tick, .spawn] ++ steps 1 14)).fai = some ⟨0, 2, 2, 2⟩ ∧
+    (run (init true 2 2) (cold ++ [.deleteAgp, .tick, .spawn] ++ steps 1 14)).agp = some ⟨0, 2, 2, 2⟩ := by decide
+
+/-- interrupted: the indexing run is killed between the two `os.replace` (fresh `.fai`, no `.agp`) → a fresh load
+    re-indexes -/
+example : (run (init true 2 2) ([.spawn] ++ steps 0 9 ++ [.crash 0, .spawn] ++ steps 1 14)).procs =
+    [.crashed, .done (.indexed 0) 0] := by decide
+
+/-- the loud failure: the `.agp` is deleted between the freshness check and the read -/
+example : (run (init true 2 2) (cold ++ [.spawn] ++ steps 1 4 ++ [.deleteAgp, .step 1])).procs[1]? =
+    some (.done .failed 0) := by decide
+
+/-- a race of three processes -/
+example : safe (run (init true 2 2)
+    ([.spawn, .spawn, .spawn] ++ steps 0 7 ++ steps 1 3 ++ steps 0 4 ++ steps 2 5 ++ steps 1 11 ++ steps 0 3)) = true := by
+  decide
+
 end AgpTpf.C15
